@@ -733,7 +733,10 @@ let rec is_interleaving (a : string list) (b : string list) (c : string list) : 
 
 let rune_count_s (s : string) = int_of_nat (M.rune_count (bytes_of_string s))
 
-let op_pp r = function
+let rec op_pp r = function
+  | [content; level; pf; lit; banner; palette; plain; pe; color; ce; filt; fe; mat; me; ngor; junks; det; def] ->
+    if def <> "1" then flag r "prop:C02:pp-default-mode-differs-from-plain-with-nothing-on-disk";
+    op_pp r [content; level; pf; lit; banner; palette; plain; pe; color; ce; filt; fe; mat; me; ngor; junks; det]
   | [content; level; pf; lit; banner; palette; plain; pe; color; ce; filt; fe; mat; me; ngor; junks; det] ->
     if det <> "1" then flag r "prop:C06:pp-nondeterministic";
     let lvl = level_of level in
